@@ -656,6 +656,7 @@ var profiles = map[string]profile{
 	"c03":       {wide: true, step: true, prefill: true, maxItems: 12, weights: weights(kText, 55, kC0Move, 8, kCsiMove, 20, kSgr, 6, kMode, 8, kMargins, 3)},
 	"c04":       {wide: true, step: true, prefill: true, maxItems: 12, weights: weights(kText, 10, kC0Move, 30, kCsiMove, 45, kMargins, 10, kMode, 5, kAltScr, 4)},
 	"c05":       {wide: true, step: true, prefill: true, maxItems: 12, weights: weights(kText, 14, kCsiMove, 20, kErase, 42, kSgr, 12, kC0Move, 5, kMargins, 7, kScroll, 8)},
+	"c05g":      {wide: true, step: true, prefill: true, clusters: true, maxItems: 12, weights: weights(kText, 30, kCsiMove, 16, kErase, 36, kSgr, 8, kC0Move, 4, kMargins, 3, kScroll, 3)},
 	"c06":       {wide: true, step: true, prefill: true, maxItems: 12, weights: weights(kText, 12, kCsiMove, 12, kScroll, 38, kMargins, 12, kC0Move, 12, kSgr, 8, kErase, 10)},
 	"c07":       {wide: true, step: true, prefill: true, maxItems: 12, weights: weights(kText, 25, kSgr, 45, kErase, 15, kCsiMove, 10, kScroll, 5)},
 	"c09cut":    {wide: true, cutAny: true, maxItems: 12, weights: weights(kText, 35, kString, 55, kOtherC0, 10)},
